@@ -41,3 +41,28 @@ func unwrapJSONNumber(input any) any {
 
 	return input
 }
+
+// unwrapJSONNumbers turns the json.Number values found in input — at any depth
+// of lists and maps — into int64/float64, so that values read from a schema
+// (defaults, …) have the same dynamic types as the ones produced by the other
+// parsers.
+func unwrapJSONNumbers(input any) any {
+	switch val := input.(type) {
+	case json.Number:
+		return unwrapJSONNumber(val)
+	case []any:
+		unwrapped := make([]any, len(val))
+		for i, item := range val {
+			unwrapped[i] = unwrapJSONNumbers(item)
+		}
+		return unwrapped
+	case map[string]any:
+		unwrapped := make(map[string]any, len(val))
+		for key, item := range val {
+			unwrapped[key] = unwrapJSONNumbers(item)
+		}
+		return unwrapped
+	}
+
+	return input
+}
